@@ -27,11 +27,19 @@ def fam_bounds(tier):
         'nest': rep('off', 1, 2, S('x')),
         'stk': choice(seq('off', 'pop', S('!')), push(S('x'))),
     }
+    # operands that can match WITHOUT consuming: only under an upper bound (an unbounded repetition of them never ends)
+    nullable = {
+        'nul': opt(S('x')),
+        'lk': pos(S('x')),
+        'nst': rep('off', 0, 1, S('x')),
+    }
+    operands.update(nullable)
     for oname, op in operands.items():
         for k in ('on', 'off'):
             shapes = []
             for mn in range(hi + 1):
-                shapes.append(('node', True, rep(k, mn, None, op)))
+                if oname not in nullable:
+                    shapes.append(('node', True, rep(k, mn, None, op)))
                 for mx in range(hi + 1):
                     shapes.append(('node', True, rep(k, mn, mx, op)))
             env = Env('bd_%s_%s' % (oname, k), skip=rule('ws', 'off'), rules=[WS_RULE], shapes=shapes)
@@ -55,6 +63,11 @@ def fam_bounds(tier):
         ('node', True, ('atomicrep', ('pair', S('x'), opt(S('y'))))),
         ('node', True, ('pair', ('atomicrep', S('x')), S('y'))),
         ('node', True, ('arr', 2, rep('on', 0, 2, S('x')))),
+        # bounded repetitions of operands that consume nothing but change the stack
+        ('node', True, seq('off', push(S('x')), push(S('y')), push(S('x')), rep('off', 0, 2, 'drop'), 'peek')),
+        ('node', True, seq('off', push(S('x')), push(S('y')), push(S('x')), rep('off', 1, 3, 'drop'), opt('peek'), S('y'))),
+        ('node', True, seq('off', push(S('x')), push(S('y')), rep('off', 0, 3, neg('pop')), 'peek')),
+        ('node', True, seq('off', rep('off', 0, 3, push(S(''))), 'peekall', S('x'))),
     ]
     env = Env('bd_misc', skip=rule('ws', 'off'), rules=[WS_RULE], shapes=shapes)
     env.alpha = [b'x', b'y', b' ', 'é'.encode()]
